@@ -151,6 +151,19 @@ func c13Workload[T any](rep *Report, codec Codec[T], k int, rng *rand.Rand, fail
 				mu.Unlock()
 			}
 		}()
+		// a call carrying a closure, in flight on every link; the callee invokes the closure only AFTER the victim's teardown
+		wg.Add(1)
+		go func() {
+			defer wg.Done()
+			v, err := rem.GateThenCall(context.Background(), 700+i, func(ctx context.Context, g int, s string) (string, error) {
+				return fmt.Sprintf("cb-%d-%s", g, s), nil
+			})
+			if i != victim && (err != nil || v != fmt.Sprintf("cb-%d-after-gate", 700+i)) {
+				mu.Lock()
+				bad = append(bad, outcome{i, fmt.Sprintf("closure-carrying call in flight hub→P%d while link %d was torn down: (%q, %v)", i, victim, v, err)})
+				mu.Unlock()
+			}
+		}()
 		wg.Add(1)
 		go func() {
 			defer wg.Done()
@@ -203,6 +216,12 @@ func c13Workload[T any](rep *Report, codec Codec[T], k int, rng *rand.Rand, fail
 	spokes[victim].hubStop()
 	spokes[victim].peer.Cancel()
 	spokes[victim].closeTransport()
+	// once the victim is gone from the enumeration, the surviving peers invoke the closures they were given
+	waitFor(func() bool { return len(hub.Remotes()) == k-1 })
+	time.Sleep(2 * time.Millisecond)
+	for i, s := range spokes {
+		s.peer.Svc.OpenGate(700 + i)
+	}
 	done := make(chan struct{})
 	go func() { wg.Wait(); close(done) }()
 	select {
